@@ -20,13 +20,13 @@ import (
 const c02MaxIDs = 6
 
 var (
-	c02Started  atomic.Int64
-	c02Dropped  atomic.Int64
-	c02LastID   uint64                  // per thread: id granted by the last NextIteration call
-	c02InFlight atomic.Int64            // iterations currently executing
-	c02HighWater atomic.Int64           // 1 once numWorkers iterations were in flight together
-	c02Pool     *TriggerPool
-	c02FirstTid int
+	c02Started   atomic.Int64
+	c02Dropped   atomic.Int64
+	c02LastID    [24]uint64   // indexed by model thread: id granted by that thread's last NextIteration call
+	c02InFlight  atomic.Int64 // iterations currently executing
+	c02HighWater atomic.Int64 // 1 once numWorkers iterations were in flight together
+	c02Pool      *TriggerPool
+	c02FirstTid  int
 )
 
 // stand-in for ActiveScenario.Run: the iteration body as a ghost interval
@@ -37,7 +37,7 @@ func c02RunFn(s *ActiveScenario, state *iterationState) {
 	if inflight == int64(c02Pool.numWorkers) {
 		c02HighWater.Store(1)
 	}
-	zz.Assert("C03.granted_id_reaches_the_iteration", state.t.Iteration == strconv.FormatUint(c02LastID, 10))
+	zz.Assert("C03.granted_id_reaches_the_iteration", state.t.Iteration == strconv.FormatUint(c02LastID[tid], 10))
 	zz.Assert("C04.worker_uses_its_own_handle", tid >= c02FirstTid && tid < c02FirstTid+c02Pool.numWorkers &&
 		state == c02Pool.iterationStatePool[tid-c02FirstTid])
 	c02Started.Add(1)
@@ -60,7 +60,7 @@ func c02CondWait(c *sync.Cond) {
 func c02NextIteration(m *PoolManager) (uint64, error) {
 	id, err := m.NextIteration()
 	if err == nil {
-		c02LastID = id
+		c02LastID[zz.ThreadID()] = id
 	} else {
 		zz.Event("refused", zz.ThreadID()) // a worker that is refused stops: at most one refusal per thread
 	}
